@@ -20,6 +20,8 @@
 #include <amgcl/detail/inverse.hpp>
 #include <amgcl/detail/qr.hpp>
 #include <functional>
+#include <unistd.h>
+#include <sys/wait.h>
 using namespace vh;
 
 // ------------------------------------------------------------------ private member access (no /repo change)
@@ -356,6 +358,13 @@ static Result execute(const Toks &t) {
 }
 
 // ------------------------------------------------------------------ generators
+// `generate` runs the real code for the V-grade ops (the op line carries the implementation's output).  It therefore runs in
+// a forked child; before every call of real code the child records a well-formed op line for the input it is about to use
+// (`pending`).  If the child dies (sanitizer abort, assert, signal) that line becomes the only generated case, so that the
+// crash is reproduced by `execute` and reported with a replayable input.
+static std::string g_pending_path;
+static void pending(const std::string &op_line) { if (g_pending_path.empty()) return; std::ofstream f(g_pending_path, std::ios::trunc); f << op_line << "\n"; }
+static void put_zeros(Line &l, long cnt) { for (long i = 0; i < cnt; ++i) l << Q(0); }
 template <class V> static void put_rhsvec(Line &l, const std::vector<typename VT<V>::rhs> &v) { print_rhsvec<V>(l, v); }
 static void put_mat(Line &l, const Mat &A) { l << A; }
 static void put_bmat(Line &l, const BMat<B22> &A) {
@@ -394,7 +403,10 @@ static std::vector<std::vector<char>> random_pattern(Rng &rng, long n, int dens,
 static void emit_sky(Rng &rng, std::vector<std::string> &lines, Mat A, int ordering /*0 cmk, 1 identity, 2 random, 3 reverse*/) {
     long n = A.n; if (rng.coin(1, 3)) { auto rows = to_rows(A); shuffle_rows_inplace(rng, rows); A = from_rows(n, n, rows); }
     std::vector<long> perm; long kind = 1;
-    if (ordering == 0) { perm = cmk_of(A); kind = 0; } else if (ordering == 1) { perm.resize(n); std::iota(perm.begin(), perm.end(), 0); }
+    if (ordering == 0) {
+        { std::vector<long> id(n); std::iota(id.begin(), id.end(), 0); Line p; p << "sky_solve" << 0; put_mat(p, A); p << id << std::vector<Q>(n) << std::vector<Q>(n) << std::vector<Q>(n); pending(p.get()); }
+        perm = cmk_of(A); kind = 0; }
+    else if (ordering == 1) { perm.resize(n); std::iota(perm.begin(), perm.end(), 0); }
     else if (ordering == 2) perm = random_perm(rng, n); else { perm.resize(n); for (long i = 0; i < n; ++i) perm[i] = n - 1 - i; }
     Line l; l << "sky_solve" << kind; put_mat(l, A); l << perm << gen_vec(rng, n) << gen_vec(rng, n) << gen_vec(rng, n);
     lines.push_back(l.get());
@@ -421,7 +433,9 @@ static void emit_skyb(Rng &rng, std::vector<std::string> &lines, long n, const s
             A.col.push_back(J); A.val.push_back(b); }
         A.ptr.push_back((ptrdiff_t)A.col.size()); }
     std::vector<long> perm; long kind = 1;
-    if (ordering == 0) { perm = cmk_of_b(A); kind = 0; } else if (ordering == 1) { perm.resize(n); std::iota(perm.begin(), perm.end(), 0); } else perm = random_perm(rng, n);
+    if (ordering == 0) {
+        { std::vector<long> id(n); std::iota(id.begin(), id.end(), 0); Line p; p << "skyb_solve" << 0; put_bmat(p, A); p << id; for (int r3 = 0; r3 < 3; ++r3) { p << (size_t)n; put_zeros(p, 2 * n); } pending(p.get()); }
+        perm = cmk_of_b(A); kind = 0; } else if (ordering == 1) { perm.resize(n); std::iota(perm.begin(), perm.end(), 0); } else perm = random_perm(rng, n);
     // never emit a case on which math::inverse would be applied to a singular non-zero block (assert in detail::inverse)
     if (nopivot_outcome(expand(A, perm), 2) == 2) return;
     auto bv = [&]() { std::vector<B21> v(n); for (auto &x : v) { x(0) = rng.rat(5); x(1) = rng.rat(5); } return v; };
@@ -446,17 +460,19 @@ static std::vector<Q> exact_root_matrix(Rng &rng, long m, long n, bool allow_def
 }
 static void emit_qr_check(std::vector<std::string> &lines, long arith, long order, long m, long n, const std::vector<Q> &A) {
     std::vector<Q> Qk, R;
+    { Line p; p << "qr_check" << arith << order << m << n; for (auto &v : A) p << v; put_zeros(p, m * std::min(m, n) + std::min(m, n) * n); pending(p.get()); }
     if (arith == 0) { auto o = qr_factorize<Q>(order, m, n, A); Qk = o.Qk; R = o.R; } else { auto o = qr_factorize<double>(order, m, n, to_double(A)); Qk = from_double(o.Qk); R = from_double(o.R); }
     Line l; l << "qr_check" << arith << order << m << n; for (auto &v : A) l << v; for (auto &v : Qk) l << v; for (auto &v : R) l << v; lines.push_back(l.get());
 }
 static void emit_qr_solve(std::vector<std::string> &lines, long arith, long order, long m, long n, const std::vector<Q> &A, const std::vector<Q> &b) {
+    { Line p; p << "qr_solve_check" << arith << order << m << n; for (auto &v : A) p << v; for (auto &v : b) p << v; put_zeros(p, n); pending(p.get()); }
     std::vector<Q> x = arith == 0 ? qr_solve<Q>(order, m, n, A, b) : from_double(qr_solve<double>(order, m, n, to_double(A), to_double(b)));
     Line l; l << "qr_solve_check" << arith << order << m << n; for (auto &v : A) l << v; for (auto &v : b) l << v; for (auto &v : x) l << v; lines.push_back(l.get());
 }
 static std::vector<Q> transpose_rm(long m, long n, const std::vector<Q> &A) { std::vector<Q> T(m * n); for (long i = 0; i < m; ++i) for (long j = 0; j < n; ++j) T[j * m + i] = A[i * n + j]; return T; }
 
 
-static void generate(Rng &rng, const Opts &o, std::vector<std::string> &lines) {
+static void generate_inner(Rng &rng, const Opts &o, std::vector<std::string> &lines) {
     const bool T = o.thorough();
     long scale = o.cases > 0 ? o.cases : (T ? 10 : 1);
     // ---- skyline, exhaustive patterns: all off-diagonal patterns up to 3x3 (4x4 thorough)
@@ -476,7 +492,8 @@ static void generate(Rng &rng, const Opts &o, std::vector<std::string> &lines) {
             if (n <= 2 || (n == 3 && (T || rng.coin(1, 4))) || (n == 4 && rng.coin(1, 64))) for (int mode = 0; mode < 3; ++mode) emit_skyb(rng, lines, n, pat, mode, (int)rng.range(0, 2));
             if (n <= 3 || rng.coin(1, 16)) {   // Cuthill-McKee on every small pattern, both variants
                 Mat A = pattern_matrix(rng, n, pat, 2);
-                for (long rev = 0; rev < 2; ++rev) { Line l; l << "cmk_check" << rev; put_mat(l, A); l << run_cmk(rev, A); lines.push_back(l.get()); }
+                for (long rev = 0; rev < 2; ++rev) { { Line p; p << "cmk_check" << rev; put_mat(p, A); p << std::vector<long>(); pending(p.get()); }
+                    Line l; l << "cmk_check" << rev; put_mat(l, A); l << run_cmk(rev, A); lines.push_back(l.get()); }
             }
         }
     }
@@ -494,7 +511,8 @@ static void generate(Rng &rng, const Opts &o, std::vector<std::string> &lines) {
         // Cuthill-McKee on larger patterns (values irrelevant): non-symmetric, disconnected, empty rows
         { long nc = rng.range(1, T ? 60 : 30); Mat P = gen_sparse(rng, nc, nc, (int)rng.range(0, 30));
           if (rng.coin(1, 3)) P = pattern_matrix(rng, nc, random_pattern(rng, nc, (int)rng.range(3, 30), rng.coin(), rng.range(1, 4)), 2);
-          long rev = rng.range(0, 1); Line l; l << "cmk_check" << rev; put_mat(l, P); l << run_cmk(rev, P); lines.push_back(l.get()); }
+          long rev = rng.range(0, 1); { Line p; p << "cmk_check" << rev; put_mat(p, P); p << std::vector<long>(); pending(p.get()); }
+          Line l; l << "cmk_check" << rev; put_mat(l, P); l << run_cmk(rev, P); lines.push_back(l.get()); }
     }
     // ---- detail::inverse
     for (long k = 0; k < 80 * scale; ++k) {
@@ -543,6 +561,24 @@ static void generate(Rng &rng, const Opts &o, std::vector<std::string> &lines) {
     lines.push_back("inv_dense 2 4 1 2 3 4 3 0 0 0 2 0 0");                               // t too short
     lines.push_back("cmk_check 0 2 3 1 0 1 1 1 1 2 0 1");                                 // not square
     lines.push_back("qr_check 0 0 2 2 1 0 0 1 1 0 0 1 1 0 0");                            // too few entries
+}
+
+static void generate(Rng &rng, const Opts &o, std::vector<std::string> &lines) {
+    const std::string lf = o.out + "/gen_lines.tmp"; g_pending_path = o.out + "/gen_pending.tmp";
+    std::remove(lf.c_str()); std::remove(g_pending_path.c_str());
+    fflush(0);
+    pid_t pid = fork();
+    if (pid < 0) { g_pending_path.clear(); generate_inner(rng, o, lines); return; }
+    if (pid == 0) {
+        std::vector<std::string> ls; generate_inner(rng, o, ls);
+        { std::ofstream f(lf); for (auto &l : ls) f << l << "\n"; }
+        _exit(0);
+    }
+    int st = 0; waitpid(pid, &st, 0);
+    const bool ok = WIFEXITED(st) && WEXITSTATUS(st) == 0;
+    { std::ifstream f(ok ? lf : g_pending_path); std::string l; while (std::getline(f, l)) if (!l.empty()) lines.push_back(l); }
+    if (!ok) std::cerr << "h_direct: generation died while running the real code; the pending input is the only generated case\n";
+    std::remove(lf.c_str()); std::remove(g_pending_path.c_str()); g_pending_path.clear();
 }
 
 VH_MAIN(generate, execute)
